@@ -154,6 +154,12 @@ def finish(ctx, level="proof", checker_cmd="lake build + #print axioms", trusted
     wall = time.time() - ctx.t0
     exit_code = 0
     replay_path = None
+    try:
+        from . import valcases
+        for k, v in valcases.CORPUS_STATS.items():
+            ctx.cov[k] = ctx.cov.get(k, 0) + v
+    except Exception:  # noqa: BLE001
+        pass
     if ctx.violations or ctx.broken:
         os.makedirs(REPLAY_DIR, exist_ok=True)
         replay_path = os.path.join(REPLAY_DIR, f"{ctx.prop}-{ctx.tier}-{ctx.seed}.json")
